@@ -121,11 +121,18 @@ def handle (st : DState) (line : String) : DState × String :=
       | some false => (st, "differ " ++ Compare.showOutcome true a ++ " ## " ++ Compare.showOutcome true b)
       | none => (st, "skip " ++ Compare.clsName (Compare.cls a) ++ "/" ++ Compare.clsName (Compare.cls b))
     | _, _, _, _ => (st, "perr unknown id")
+  | ["genclass", pid, ver] =>
+    match lookup st.progs pid, Util.parseNat ver with
+    | some sp, some v =>
+      (match Comp.genMain { version := v } sp.main with
+       | .ok (g, _) => (st, s!"ok blocks={g.size}")
+       | .error e => (st, "err " ++ e))
+    | _, _ => (st, "perr unknown id")
   | ["validate", pid, tid, ver] =>
     match lookup st.progs pid, lookup st.teals tid, Util.parseNat ver with
     | some sp, some tp, some v =>
       (match Check.validateMain v sp.main tp with
-       | .ok r => (st, s!"valid rel={r.relSize} blocks={r.blocks} slots={r.bindings.length}")
+       | .ok r => (st, s!"valid rel={r.relSize} blocks={r.blocks} slots={r.bindings.length} fragment={r.inFragment}")
        | .error e => (st, "invalid " ++ (e.replace "\n" " ")))
     | _, _, _ => (st, "perr unknown id")
   | cmd :: args =>
